@@ -28,15 +28,29 @@ func runC10(c *Ctx) {
 		c.R.undecided("C10", "anchors", "", "", "sketch anchors resolve", err.Error())
 		return
 	}
-	c10Wrappers(c, a)
+	c10Wrappers(c, a, "C10-D1", "")
 	c10Bypass(c, a)
-	c10StatObject(c, a)
+	c10StatObject(c, a, "C10-D3", "")
 	c10Clamp(c, a)
 	c10Decode(c, a)
 }
 
-func c10Wrappers(c *Ctx, a *sketchAnchors) {
-	const rule = "C10-D1"
+// c10Wrappers: part == "" checks every wrapper; "Reweight" / "ChangeMapping" only that one (C16 / C17 re-evaluate it
+// under their own rule ids).
+func c10Wrappers(c *Ctx, a *sketchAnchors, rule string, part string) {
+	if part == "Reweight" {
+		n := checkWrapper(c, a, wrapperSpec{rule: rule, method: "Reweight", inner: "Reweight", innerArgs: []func(*Term) bool{isParamN(1)},
+			stat: "Reweight", statArgs: []func(*Term) bool{isParamN(1)}})
+		c.R.floor(rule, "exact-variant Reweight wrapper paths", n, 2)
+		return
+	}
+	if part == "" {
+		c10WrapperTable(c, a, rule)
+	}
+	c10WrapperCopyChange(c, a, rule, part)
+}
+
+func c10WrapperTable(c *Ctx, a *sketchAnchors, rule string) {
 	n := 0
 	n += checkWrapper(c, a, wrapperSpec{rule: rule, method: "AddWithCount", inner: "AddWithCount",
 		innerArgs: []func(*Term) bool{isParamN(1), isParamN(2)}, stat: "Add", statArgs: []func(*Term) bool{isParamN(1), isParamN(2)},
@@ -54,9 +68,11 @@ func c10Wrappers(c *Ctx, a *sketchAnchors) {
 		stat: "Reweight", statArgs: []func(*Term) bool{isParamN(1)}})
 	n += checkWrapper(c, a, wrapperSpec{rule: rule, method: "Clear", inner: "Clear", stat: "Clear"})
 	c.R.floor(rule, "wrapper paths (Add, AddWithCount, MergeWith, Reweight, Clear)", n, 10)
+}
 
+func c10WrapperCopyChange(c *Ctx, a *sketchAnchors, rule string, part string) {
 	// Copy
-	if f := c.P.DeclaredMethod(a.Exact, "Copy"); c.mustFunc(rule, f, "(*Exact).Copy") {
+	if f := c.P.DeclaredMethod(a.Exact, "Copy"); part == "" && c.mustFunc(rule, f, "(*Exact).Copy") {
 		paths, _ := exec(c, f, nil, 1)
 		ok := len(paths) == 1
 		found := ""
@@ -169,8 +185,10 @@ func c10Bypass(c *Ctx, a *sketchAnchors) {
 }
 
 // D3: the statistics object.
-func c10StatObject(c *Ctx, a *sketchAnchors) {
-	const rule = "C10-D3"
+// c10StatObject checks the statistics object; part == "" runs every block, otherwise only the block of that method
+// (C16 re-evaluates Reweight, C17 Rescale under their own rule ids).
+func c10StatObject(c *Ctx, a *sketchAnchors, rule string, part string) {
+	want := func(m string) bool { return part == "" || part == m }
 	st := c.P.NamedType(pkgStat, "SummaryStatistics")
 	if st == nil {
 		c.R.undecided(rule, "anchor/SummaryStatistics", "", "", "type exists", "unresolved")
@@ -208,7 +226,7 @@ func c10StatObject(c *Ctx, a *sketchAnchors) {
 		return mk("const", "0", nil) // fields omitted from the constructor literal are zero
 	}
 	// Copy: every field carried over
-	if f := c.P.DeclaredMethod(st, "Copy"); c.mustFunc(rule, f, "(*SummaryStatistics).Copy") {
+	if f := c.P.DeclaredMethod(st, "Copy"); want("Copy") && c.mustFunc(rule, f, "(*SummaryStatistics).Copy") {
 		ps, _ := exec(c, f, nil, 1)
 		for _, fn := range fnames {
 			ok := len(ps) == 1
@@ -222,7 +240,7 @@ func c10StatObject(c *Ctx, a *sketchAnchors) {
 		}
 	}
 	// Clear: every field reset to the constructor's value
-	if f := c.P.DeclaredMethod(st, "Clear"); c.mustFunc(rule, f, "(*SummaryStatistics).Clear") {
+	if f := c.P.DeclaredMethod(st, "Clear"); want("Clear") && c.mustFunc(rule, f, "(*SummaryStatistics).Clear") {
 		ps, _ := exec(c, f, nil, 1)
 		for _, fn := range fnames {
 			ok := len(ps) >= 1
@@ -265,7 +283,7 @@ func c10StatObject(c *Ctx, a *sketchAnchors) {
 		return isRecvField(x, fld) && y.Key() == by.Key() || isRecvField(y, fld) && x.Key() == by.Key()
 	}
 	// Reweight: accumulators scaled on every path; min/max written only when factor == 0 (reset)
-	if f := c.P.DeclaredMethod(st, "Reweight"); c.mustFunc(rule, f, "(*SummaryStatistics).Reweight") {
+	if f := c.P.DeclaredMethod(st, "Reweight"); want("Reweight") && c.mustFunc(rule, f, "(*SummaryStatistics).Reweight") {
 		dom := mkDomain(paramScalar("factor", 1, 1, constPoints("0")))
 		ps, _ := exec(c, f, dom, 1)
 		factor := mk("param", "1", nil)
@@ -298,7 +316,7 @@ func c10StatObject(c *Ctx, a *sketchAnchors) {
 		}
 	}
 	// Rescale: never the count; sums scaled; min/max sign table
-	if f := c.P.DeclaredMethod(st, "Rescale"); c.mustFunc(rule, f, "(*SummaryStatistics).Rescale") {
+	if f := c.P.DeclaredMethod(st, "Rescale"); want("Rescale") && c.mustFunc(rule, f, "(*SummaryStatistics).Rescale") {
 		dom := mkDomain(paramScalar("factor", 1, 1, constPoints("0")))
 		ps, _ := exec(c, f, dom, 1)
 		factor := mk("param", "1", nil)
@@ -357,7 +375,7 @@ func c10StatObject(c *Ctx, a *sketchAnchors) {
 		}
 	}
 	// MergeWith: every accumulator folded from the argument's corresponding field; min with <, max with >
-	if f := c.P.DeclaredMethod(st, "MergeWith"); c.mustFunc(rule, f, "(*SummaryStatistics).MergeWith") {
+	if f := c.P.DeclaredMethod(st, "MergeWith"); want("MergeWith") && c.mustFunc(rule, f, "(*SummaryStatistics).MergeWith") {
 		ps, _ := exec(c, f, nil, 1)
 		argField := func(t *Term, fld string) bool {
 			return t != nil && t.Op == "field" && t.Sym == fld && t.Args[0].isParam(1)
@@ -386,7 +404,7 @@ func c10StatObject(c *Ctx, a *sketchAnchors) {
 		})
 	}
 	// Add
-	if f := c.P.DeclaredMethod(st, "Add"); c.mustFunc(rule, f, "(*SummaryStatistics).Add") {
+	if f := c.P.DeclaredMethod(st, "Add"); want("Add") && c.mustFunc(rule, f, "(*SummaryStatistics).Add") {
 		ps, _ := exec(c, f, nil, 1)
 		okC, okS := len(ps) > 0, len(ps) > 0
 		for _, p := range ps {
@@ -414,7 +432,7 @@ func c10StatObject(c *Ctx, a *sketchAnchors) {
 		c10MinMaxFold(c, rule, f, ps, "Add", minF, maxF, func(string) func(*Term) bool { return func(t *Term) bool { return t.isParam(1) } })
 	}
 	// AddToCount / AddToSum / compensated helper
-	if f := c.P.DeclaredMethod(st, "AddToCount"); c.mustFunc(rule, f, "AddToCount") {
+	if f := c.P.DeclaredMethod(st, "AddToCount"); want("AddToCount") && c.mustFunc(rule, f, "AddToCount") {
 		ps, _ := exec(c, f, nil, 1)
 		ok := len(ps) == 1
 		if ok {
